@@ -143,6 +143,25 @@ def search(payload):
                 fails.append({"p": repr(p)[:120], "generate": mode, "position": len(vals), "what": f"internal error {err}", "line_events": 0})
             elif err == "timeout" and len(vals) < count // 2:
                 slow.append(f"generate_{mode}({p!r}) after {len(vals)} values")
+    # HISTORY (gencommon.history_block): the same satisfiable requests again and again in one process, on predicates built from the SAME
+    # exported objects (is_none_p, a member set kept in a variable ...) and on temporaries, after requests that are refused with an
+    # exception (kinds without a generator): each must still deliver a first value, and what is delivered must be of the right side
+    from predicate.standard_predicates import ge_le_p as _gele
+    kept = in_p(2, 3, 4)
+    hm_t = [("any_p(is_none_p)", lambda: any_p(is_none_p)), ("any_p(kept) with kept = in_p(2, 3, 4)", lambda: any_p(kept)), ("any_p(is_truthy_p)", lambda: any_p(is_truthy_p)), ("any_p(is_complex_p)", lambda: any_p(is_complex_p)),
+            ("any_p(is_int_p)", lambda: any_p(is_int_p)), ("any_p(ge_p(101))", lambda: any_p(ge_p(101))), ("all_p(ge_p(101))", lambda: all_p(ge_p(101))), ("is_set_of_p(is_str_p)", lambda: is_set_of_p(is_str_p)),
+            ("all_p(is_none_p)", lambda: all_p(is_none_p)), ("is_set_of_p(is_bool_p)", lambda: is_set_of_p(is_bool_p)), ("any_p(eq_p(4))", lambda: any_p(eq_p(4))), ("any_p(any_p(is_int_p))", lambda: any_p(any_p(is_int_p)))]
+    need = {lb for lb, _ in hm_t}
+    refused = [("generate_true(all_p(ge_le_p(1, 5)))  # a kind without a generator: ValueError", lambda: next(iter(generate_true(all_p(_gele(1, 5)))))),
+               ("generate_true(any_p(~is_int_p))  # ValueError", lambda: next(iter(generate_true(any_p(~is_int_p))))),
+               ("generate_true(all_p(any_p(ge_le_p(0, 9))))  # ValueError", lambda: next(iter(generate_true(all_p(any_p(_gele(0, 9))))))),
+               ("generate_true(is_set_of_p(~is_str_p))  # ValueError", lambda: next(iter(generate_true(is_set_of_p(~is_str_p)))))] * 3
+    hn, hfails = g.history_block("true", generate_true, hm_t, poison=refused, seed=int(payload["seed"]), k=3, need_first=need)
+    n += hn
+    for f in hfails:
+        f.setdefault("what", f"a yielded value is on the wrong side: {f.get('value')} -> {f.get('p(value)')}")
+        f.setdefault("line_events", 0)
+    fails += hfails
     for p in UNSAT_TRUE:
         vals, err = g.take(generate_true(p), 3)
         n += 1
